@@ -720,6 +720,14 @@ def axioms(c, extra_pairs=True):
             out.append(z3.Implies(z3.And(a > -pi / 2, a < pi / 2), v > 0))
             out.append(z3.Implies(z3.And(a > pi / 2, a < 3 * pi / 2), v < 0))
             out.append(z3.Implies(z3.And(a > 3 * pi / 2, a < 5 * pi / 2), v > 0))
+        # values at every multiple of pi/2 in [-2 pi, 2 pi]
+        for mlt in range(-4, 5):
+            sv = [0, 1, 0, -1][mlt % 4]
+            cv = [1, 0, -1, 0][mlt % 4]
+            for (a,), v in S:
+                out.append(z3.Implies(2 * a == mlt * pi, v == sv))
+            for (a,), v in Cc:
+                out.append(z3.Implies(2 * a == mlt * pi, v == cv))
         # shifts by multiples of pi/2 between recorded applications
         for (a1,), v1 in S + Cc:
             pass
